@@ -658,7 +658,7 @@ where
     /// The slice MUST be a part of this `HipOsStr`.
     #[inline]
     #[must_use]
-    pub fn slice_ref_unchecked(&self, slice: &OsStr) -> Self {
+    pub unsafe fn slice_ref_unchecked(&self, slice: &OsStr) -> Self {
         // SAFETY
         unsafe { Self(self.0.slice_ref_unchecked(slice.as_encoded_bytes())) }
     }
